@@ -81,3 +81,48 @@ void h_level_gate(void) {
     if (expect == 0) WITNESS("all calls filtered");
     WITNESS("gate");
 }
+
+/* The same gate for a logger that is NOT the process-wide root logger (language bindings and AWS_LOGUF users hold their own logger):
+ * the active level is the level of the logger the call is made on; the root logger - absent, or another logger with another level -
+ * must not influence it. */
+static unsigned other_level, other_logged;
+static int other_log(struct aws_logger *l, enum aws_log_level lv, aws_log_subject_t s, const char *f, ...) { (void)l; (void)lv; (void)s; (void)f; other_logged++; return AWS_OP_SUCCESS; }
+static enum aws_log_level other_get_level(struct aws_logger *l, aws_log_subject_t s) { (void)l; (void)s; return (enum aws_log_level)other_level; }
+static void other_clean_up(struct aws_logger *l) { (void)l; }
+static struct aws_logger_vtable other_vt = {.log = other_log, .get_log_level = other_get_level, .clean_up = other_clean_up, .set_log_level = NULL};
+void h_level_gate_not_root(void) {
+    struct aws_log_formatter fmt = {.vtable = &fmt_vt, .allocator = verif_allocator(), .impl = NULL};
+    struct aws_log_writer wr = {.vtable = &wr_vt, .allocator = verif_allocator(), .impl = NULL};
+    struct aws_log_channel ch;
+    ASSERT(aws_log_channel_init_foreground(&ch, verif_allocator(), &wr) == AWS_OP_SUCCESS, "foreground channel init");
+    unsigned cur = nd_u8();
+    ASSUME(cur <= AWS_LL_TRACE);
+    struct aws_logger_pipeline pipe = {.formatter = &fmt, .channel = &ch, .writer = &wr, .allocator = verif_allocator()};
+    pipe.level.value = (void *)(uintptr_t)cur;
+    struct aws_logger lg = {.vtable = &s_pipeline_logger_unowned_vtable, .allocator = verif_allocator(), .p_impl = &pipe};
+    struct aws_logger other = {.vtable = &other_vt, .allocator = verif_allocator(), .p_impl = NULL};
+    struct aws_logger *lgp = &lg;
+    bool have_root = nd_bool();
+    other_level = nd_u8();
+    ASSUME(other_level <= AWS_LL_TRACE);
+    aws_logger_set(have_root ? &other : NULL);
+    unsigned expect = 0;
+    for (unsigned i = 0; i < K; ++i) {
+        unsigned lvl = nd_u8();
+        ASSUME(lvl >= AWS_LL_FATAL && lvl <= AWS_LL_TRACE);
+        call_no = i + 1;
+        unsigned before = written;
+        if (lgp->vtable->get_log_level(lgp, AWS_LS_COMMON_GENERAL) >= (enum aws_log_level)lvl) { /* the manual level check AWS_LOGUF asks for */
+            AWS_LOGUF(lgp, (enum aws_log_level)lvl, AWS_LS_COMMON_GENERAL, "msg %d", (int)i);
+            ASSERT(lvl <= cur, "level gate: get_log_level reports the logger's own level");
+            expect++;
+            ASSERT(written == before + 1, "level gate (logger is not the root logger): a call at or below the logger's level produces exactly one line, whatever the root logger is");
+        } else ASSERT(lvl > cur && written == before, "level gate: a call above the logger's level produces nothing");
+    }
+    ASSERT(written == expect && formatted == expect && other_logged == 0, "every accepted call reaches this logger's writer once and nothing goes to the root logger");
+    aws_logger_set(NULL);
+    aws_log_channel_clean_up(&ch);
+    if (expect == K && have_root && other_level < AWS_LL_FATAL) WITNESS("accepted while the root logger is switched off");
+    if (expect == K && !have_root) WITNESS("accepted with no root logger");
+    WITNESS("gate not root");
+}
